@@ -299,6 +299,9 @@ func c9RunOffer(w *world, V *baseNode, vp *proto, o *c9offer, tr *offerTracker, 
 	now := w.now()
 	// the transfer of this offer cannot have ended before the puppet dials (or, if it never does,
 	// before the node's own 15 s wait for the connection is over)
+	if a.anyAccepted() && o.beh != c9Complete {
+		w.fault("offerer_" + c9Names[o.beh]) // accepted transfer that the offerer then delays, abandons or corrupts
+	}
 	switch o.beh {
 	case c9NoDial:
 		o.earliestEnd = o.sentAt + 15*time.Second
